@@ -113,6 +113,8 @@ def gen_num(rng, F, cols, depth):
     if r == 7:
         return ['un', rng.choice(['neg', 'abs']), a]
     if r == 8:
+        if rng.random() < 0.4:
+            return ['map', 'nanflag', a, rng.choice([None, 'ignore', 'ignore'])]
         return ['map', rng.choice(['double', 'sq', 'half']), a]
     if r == 9:
         return rng.choice([['round', a, rng.choice([0, 1])], ['astype', a, 'float64']])
